@@ -298,6 +298,12 @@ theorem C15_disciplined_per_buffer (l : List Ev) : Disciplined l ↔ ∀ id, Dis
     rw [hp, C15_aux_okAt_proj] at hok
     exact hok
 
+/-- every prefix of a disciplined log is disciplined (an operation cut short by a panic leaves a prefix
+of the events the instrumented models log for it) -/
+theorem C15_disciplined_prefix {l l' : List Ev} (hd : Disciplined (l ++ l')) : Disciplined l := by
+  intro p e r hl
+  exact hd p e (r ++ l') (by rw [hl]; simp)
+
 /-- **Finer interleavings**: any reordering of a disciplined log that keeps the order of each
 buffer's own events is disciplined.  With `C15_sys_disciplined`: however the pool events of
 concurrently running operations of different sessions interleave, as long as every buffer sees its
